@@ -2,6 +2,7 @@ package props
 
 import (
 	"fmt"
+	"github.com/AsaiYusuke/jsonpath"
 	"reflect"
 
 	"pgregory.net/rapid"
@@ -37,6 +38,9 @@ func c10Value(rt *rapid.T, label string, altSpellings bool) *gen.DNode {
 	case k < 17:
 		return gen.Arr()
 	case k < 18:
+		if gen.Uniform(rt, label+"arr3", 2) == 0 {
+			return gen.Arr(gen.NumText("1"), gen.NumText("-1"), gen.NumText("2"))
+		}
 		return gen.Arr(gen.NumText("1"))
 	case k < 19:
 		return gen.Obj().Set("a", gen.NumText("1"))
@@ -53,6 +57,9 @@ func drawC10(rt *rapid.T) *Case {
 	atVfn := &gen.Path{Root: gen.RootAt, Steps: []gen.Step{name("v"), fn("fnan", false)}} // negative numbers become NaN
 	atVf2 := &gen.Path{Root: gen.RootAt, Steps: []gen.Step{name("v"), fn("f2", false)}}   // number+1, !bool, errors on strings/containers
 	dollarXsCount := &gen.Path{Root: gen.RootDollar, Steps: []gen.Step{name("xs"), fn("g1", true)}}
+	// a nested filter inside the operand, then a function: the count of positive elements of @.v
+	positive := &gen.Query{Kind: gen.QCmp, Op: ">", A: &gen.Operand{P: &gen.Path{Root: gen.RootAt}}, B: &gen.Operand{IsLit: true, LK: gen.LNum, Num: "0"}}
+	atVFiltCount := &gen.Path{Root: gen.RootAt, Steps: []gen.Step{name("v"), {Kind: gen.KFilter, Q: positive}, fn("g1", true)}}
 	dollarX := &gen.Path{Root: gen.RootDollar, Steps: []gen.Step{name("x")}}
 	dollarY := &gen.Path{Root: gen.RootDollar, Steps: []gen.Step{name("y")}}
 
@@ -60,7 +67,9 @@ func drawC10(rt *rapid.T) *Case {
 	q := &gen.Query{}
 	isRegex := gen.Uniform(rt, "regex", 8) == 0
 	var left *gen.Path
-	switch k := gen.Uniform(rt, "leftform", 14); {
+	switch k := gen.Uniform(rt, "leftform", 15); {
+	case k == 14:
+		left = atVFiltCount
 	case k < 5:
 		left = atV
 	case k < 7:
@@ -102,7 +111,7 @@ func drawC10(rt *rapid.T) *Case {
 		a := &gen.Operand{P: left}
 		var b *gen.Operand
 		k := gen.Uniform(rt, "rightform", 10)
-		if !numeric && (left == atVfn || left == atVf2 || left == dollarXsCount) {
+		if !numeric && (left == atVfn || left == atVf2 || left == dollarXsCount || left == atVFiltCount) {
 			// == / != between two paths is reflect.DeepEqual: a user function that returns float64
 			// next to json.Number document values is outside the property's domain (its quantifier
 			// restricts path-vs-path == to identically represented numbers), so function operands
@@ -236,6 +245,21 @@ func checkC10(c *Case, st *Stats) string {
 			}
 			if msg := c10EditAndEvaluateAgain(cc, ast, text, lib, st); msg != "" {
 				return msg
+			}
+			if len(text)%4 == 1 {
+				// a comparison is decided on the values, also when the results are handed out as Accessors
+				acc := evalLibrary(cc, cc.Document(), true)
+				st.Eval(1)
+				st.Class("accessor-mode")
+				if acc.parseErr != nil || (acc.err == nil) != (lib.err == nil) || len(acc.got) != len(lib.got) {
+					return fmt.Sprintf("%q (UseNumber=%v): plain mode selects %s (%v), accessor mode %d values (%v, parse %v)", text, useNumber, JSONString(lib.got), lib.err, len(acc.got), acc.err, acc.parseErr)
+				}
+				for i, v := range acc.got {
+					a, ok := v.(jsonpath.Accessor)
+					if !ok || a.Get == nil || !reflect.DeepEqual(a.Get(), lib.got[i]) {
+						return fmt.Sprintf("%q (UseNumber=%v): accessor-mode result %d is %s, plain mode selects %s", text, useNumber, i, JSONString(v), JSONString(lib.got[i]))
+					}
+				}
 			}
 			// selection identity independent of the number representation: compare as float64-decoded text
 			o := &outcome{ids: canonNumbers(lib.got), n: len(lib.got)}
